@@ -10,4 +10,7 @@ def rerunInputsSavedZero : Bool := true
 /-- `handleInterruptWithSubGraphAndRerunNodes` folds the other finished tasks with
     resolveCompletedTasks + updateValues + updateDependencies and no `get` -/
 def foldWithoutGet : Bool := true
+/-- the stream<->value convert pairs registered for START's output and END's input hold functions
+    (an interrupt in the Stream paradigm converts channel contents written by START) -/
+def checkpointStartEndPairsSet : Bool := true
 end EinoV.Expected.C05
